@@ -14,7 +14,7 @@ RULE = ("every emit entry point (read/write requests in 8/16-bit semantics, ackn
         "responses, both meta messages) x {serial, tcp} x {8, 16}-bit memory x addresses (0, SLIP control octets in every position, "
         "0xffffffff, random) x block sizes (0, 1, 2, 63..65, 115..117 = varint boundary of the TCP frame, 4 GiB-1 for reads) x payloads "
         "containing C0 DB DC DD x sequence numbers incl. 0xfffe..0 (wrap); every emitted frame is looped back into the same instance's "
-        "receiver, received, and released; thorough adds TCP frames of 16383 and 16384 octets (varint prefix growing to three octets) and 40 random emissions per "
+        "receiver, received, and released; every emission repeated into chunk-style sinks taking 1, 2, 3, 5, 7 or all octets per call; thorough adds TCP frames of 16383 and 16384 octets (varint prefix growing to three octets) and 40 random emissions per "
         "configuration.  Non-trivial = a frame reached the wire; distinct = distinct operation text.")
 EXHAUSTIVE = {"quick": False, "thorough": False}
 ASSUMPTIONS = [
@@ -88,6 +88,13 @@ def cases(tier, seed):
     for mem in (8, 16):
         for ep in ("serial", "tcp"):
             cs.append(Case("emit-%d-%s" % (mem, ep), config_ops(rnd, mem, ep, tier), ("emit", ep, str(mem))))
+    # the same emissions into a chunk-style sink that takes everything, or only 1, 2, 3, 5, 7 octets per call (a
+    # socket or pipe: every chunk leaves in several pieces): the wire must be the same
+    for mode in ("chunk:0", "chunk:1", "chunk:2", "chunk:3", "chunk:5", "chunk:7"):
+        for mem, ep in ((8, "tcp"), (16, "serial"), (16, "tcp"), (8, "serial")):
+            ops = config_ops(rnd, mem, ep, tier)
+            cs.append(Case("emit-%d-%s-%s" % (mem, ep, mode.replace(":", "")), [ops[0], "rp.sinkmode " + mode] + ops[1:],
+                           ("emit", "chunk-sink", ep, str(mem))))
     # sink that runs full while a frame is emitted: the error is passed on, nothing is invented
     ops = []
     for ep in ("serial", "tcp"):
